@@ -18,8 +18,31 @@ def presentAt : List SC → Nat → Except Err (Option SC)
     | none => .error .keyError
     | some ps => if ps.contains psid then .ok (some s) else presentAt rest psid
 
+/-- `last_full_certificate_time_of.get(hashedid8, 0)` -/
+def lastIncl (S : Station) (t : Nat) : Nat :=
+  match S.lastOf.find? (fun p => p.1 == t) with
+  | some p => p.2
+  | none => 0
+
+/-- the time the signer compares the clock with: per ticket (repaired), or the one shared timer (before) -/
+def lastFor (S : Station) (t : Nat) : Nat := if S.perTicket then S.lastIncl t else S.lastFull
+
+/-- a peer's request is pending for ticket `t` (a request raised without naming tickets is served by the next signer) -/
+def asked (S : Station) (t : Nat) : Bool :=
+  if S.perTicket then S.reqOwn && (S.owed.isEmpty || S.owed.contains t) else S.reqOwn
+
 /-- `set_up_signer`: certificate iff more than 1 s since it was last included, or a peer asked for it -/
-def wantsCert (S : Station) (now : Nat) : Bool := decide (now - S.lastFull > 1000) || S.reqOwn
+def wantsCert (S : Station) (t now : Nat) : Bool := decide (now - S.lastFor t > 1000) || S.asked t
+
+def setLast (l : List (Nat × Nat)) (t now : Nat) : List (Nat × Nat) :=
+  if l.any (fun p => p.1 == t) then l.map (fun p => if p.1 == t then (t, now) else p) else l ++ [(t, now)]
+
+/-- the bookkeeping of `set_up_signer` when it includes the certificate of ticket `t` -/
+def included (S : Station) (t now : Nat) : Station :=
+  if S.perTicket then
+    { S with lastFull := now, lastOf := setLast S.lastOf t now, owed := S.owed.filter (fun x => x != t),
+             reqOwn := !(S.owed.filter (fun x => x != t)).isEmpty }
+  else { S with lastFull := now, reqOwn := false }
 
 def baseMsg (psid genTime payload : Nat) (a : SC) (sg : Signer) : Msg :=
   { psid := psid, genTime := some genTime, genLoc := false, p2pcdLearn := false, missingCrl := false,
@@ -47,8 +70,8 @@ def signCam (S : Station) (now psid genTime payload : Nat) : Station × Except E
     | .error e => (S1, .error e)
     | .ok none => (S1, .error .runtimeError)
     | .ok (some a) =>
-      if S1.wantsCert now then
-        ({ S1 with lastFull := now, reqOwn := false },
+      if S1.wantsCert a.c.id now then
+        (S1.included a.c.id now,
           .ok { baseMsg psid genTime payload a (.certs [a.c]) with inlineReq := S.inlineField, reqCert := rc })
       else
         (S1, .ok { baseMsg psid genTime payload a (.digest a.c.id) with inlineReq := S.inlineField, reqCert := rc })
